@@ -138,20 +138,79 @@ package backend
 // ---------------------------------------------------------------------------------------------
 // utils.go
 // ---------------------------------------------------------------------------------------------
-// TxReceiptFromEvent: (nil, nil) when the list has no tx_receipt event; otherwise the outcome of parsing the FIRST such
-// event. Trusted summary: the outcome is a function of the event list; the returned receipt and its logs are new objects.
-//@ func TxReceiptFromEvent(events []abci.Event) (ic *InCompletedEthReceipt, err error)
-//@   assumed
+// ---------------------------------------------------------------------------------------------
+// utils.go — reading the tx_receipt event back (C14). What the consensus side writes: x/evm/types GetSdkEventForReceipt
+// (C13.event_renders_receipt: gasUsed, txIdx, logIdx as decimal texts; the marshalled consensus receipt as 0x-hex).
+// attrFirstAt(attrs, key, j): j is the position of the FIRST attribute with that key (findAttribute's choice).
+// ---------------------------------------------------------------------------------------------
+// 64-bit wrap-around addition (Go's uint64 +), without a modulo
+//@ ghost func wrapAdd64(a int, b int) int = a + b >= pow2(64) ? a + b - pow2(64) : a + b
+//@ ghost macro attrFirstAt(attrs []abci.EventAttribute, key string, j int) bool = 0 <= j && j < len(attrs) && attrs[j].Key == key && (forall i int :: (0 <= i && i < j) ==> attrs[i].Key != key)
+
+//@ func findAttribute(attrs []abci.EventAttribute, key string) (value string, found bool)
 //@   modifies nothing
-//@   ensures (err != nil) == evRcErr(base(events), off(events), len(events))
-//@   ensures (ic != nil) == evRcHas(base(events), off(events), len(events))
-//@   ensures err != nil ==> ic == nil
-//@   ensures ic != nil ==> (fresh(ic) && ic.Receipt != nil && fresh(ic.Receipt) && ic.EffectiveGasPrice != nil && ic.Receipt.BlockNumber != nil && bigval[ic.Receipt.BlockNumber] == evRcBlockNumber(base(events), off(events), len(events)))
-//@   ensures ic != nil ==> (ic.Receipt.GasUsed == evRcGasUsed(base(events), off(events), len(events)) && ic.Receipt.CumulativeGasUsed == evRcCumGas(base(events), off(events), len(events)) && ic.Receipt.Status == evRcStatus(base(events), off(events), len(events)) && ic.Receipt.Type == evRcType(base(events), off(events), len(events)) && ic.Receipt.TransactionIndex == evRcTxIndex(base(events), off(events), len(events)) && ic.Receipt.TxHash == evRcTxHash(base(events), off(events), len(events)) && ic.Receipt.ContractAddress == evRcContract(base(events), off(events), len(events)) && len(ic.Receipt.Logs) == evRcNLogs(base(events), off(events), len(events)))
-//@   ensures ic != nil ==> ((len(ic.Receipt.Logs) == 0 || fresh(base(ic.Receipt.Logs))) && off(ic.Receipt.Logs) == 0)
-//@   ensures ic != nil ==> (forall i int :: (0 <= i && i < len(ic.Receipt.Logs)) ==> (ic.Receipt.Logs[i] != nil && fresh(ic.Receipt.Logs[i])))
-//@   ensures ic != nil ==> (forall i int, j int :: (0 <= i && i < j && j < len(ic.Receipt.Logs)) ==> ic.Receipt.Logs[i] != ic.Receipt.Logs[j])
-//@   panics never
+//@   ensures[C14.find_attr_found_iff] found == (exists j int :: 0 <= j && j < len(attrs) && attrs[j].Key == key)
+//@   ensures[C14.find_attr_first] forall j int :: attrFirstAt(attrs, key, j) ==> value == attrs[j].Value
+//@   ensures[C14.find_attr_absent] !found ==> value == ""
+//@   panics[C14.find_attr_never_panics] never
+//@ loop 1
+//@   invariant[C14.find_attr_loop_bounds] -1 <= rangeindex && rangeindex < len(attrs)
+//@   invariant[C14.find_attr_loop_none_yet] forall i int :: (0 <= i && i <= rangeindex) ==> attrs[i].Key != key
+
+// ParseTxReceiptFromEvent: every reported field is read from the FIRST attribute with the respective key; the consensus
+// fields (type, status, cumulative gas, bloom, logs) are the decoding of the marshalled receipt; the logs get the block
+// number, tx hash, tx index of the receipt and consecutive (64-bit) log indices from the start index attribute.
+//@ func ParseTxReceiptFromEvent(event abci.Event) (ic *InCompletedEthReceipt, err error)
+//@   requires event.Type == evmtypes.EventTypeTxReceipt
+//@   modifies nothing
+//@   ensures[C14.parse_receipt_shape] (err == nil) == (ic != nil) && (ic != nil ==> (fresh(ic) && ic.Receipt != nil && fresh(ic.Receipt) && ic.EffectiveGasPrice != nil && fresh(ic.EffectiveGasPrice) && ic.Receipt.BlockNumber != nil && fresh(ic.Receipt.BlockNumber)))
+//@   ensures[C14.parse_receipt_gas_used] ic != nil ==> (forall j int :: attrFirstAt(event.Attributes, evmtypes.AttributeKeyReceiptGasUsed, j) ==> ic.Receipt.GasUsed == uintTextVal(event.Attributes[j].Value, 10))
+//@   ensures[C14.parse_receipt_tx_index] ic != nil ==> (forall j int :: attrFirstAt(event.Attributes, evmtypes.AttributeKeyReceiptTxIndex, j) ==> ic.Receipt.TransactionIndex == uintTextVal(event.Attributes[j].Value, 10))
+//@   ensures[C14.parse_receipt_tx_hash] ic != nil ==> (forall j int :: attrFirstAt(event.Attributes, evmtypes.AttributeKeyReceiptEvmTxHash, j) ==> ic.Receipt.TxHash == common.HexToHash(event.Attributes[j].Value))
+//@   ensures[C14.parse_receipt_block_number] ic != nil ==> (forall j int :: attrFirstAt(event.Attributes, evmtypes.AttributeKeyReceiptBlockNumber, j) ==> bigval[ic.Receipt.BlockNumber] == uintTextVal(event.Attributes[j].Value, 10))
+//@   ensures[C14.parse_receipt_contract_address] ic != nil ==> (forall j int :: attrFirstAt(event.Attributes, evmtypes.AttributeKeyReceiptContractAddress, j) ==> ic.Receipt.ContractAddress == (event.Attributes[j].Value == "" ? zero(type(common.Address)) : common.HexToAddress(event.Attributes[j].Value)))
+//@   ensures[C14.parse_receipt_consensus_fields] ic != nil ==> (forall j int :: attrFirstAt(event.Attributes, evmtypes.AttributeKeyReceiptMarshalled, j) ==> hex0xDec(event.Attributes[j].Value) == rlpReceipt(ic.Receipt.Type, ic.Receipt.Status, ic.Receipt.CumulativeGasUsed, ic.Receipt.Bloom, base(ic.Receipt.Logs), off(ic.Receipt.Logs), len(ic.Receipt.Logs)))
+//@   ensures[C14.parse_receipt_needs_attributes] ic != nil ==> ((exists j int :: 0 <= j && j < len(event.Attributes) && event.Attributes[j].Key == evmtypes.AttributeKeyReceiptMarshalled) && (exists j int :: 0 <= j && j < len(event.Attributes) && event.Attributes[j].Key == evmtypes.AttributeKeyReceiptGasUsed) && (exists j int :: 0 <= j && j < len(event.Attributes) && event.Attributes[j].Key == evmtypes.AttributeKeyReceiptTxIndex) && (exists j int :: 0 <= j && j < len(event.Attributes) && event.Attributes[j].Key == evmtypes.AttributeKeyReceiptEvmTxHash))
+//@   ensures[C14.parse_receipt_logs_fresh] ic != nil ==> (forall i int :: (0 <= i && i < len(ic.Receipt.Logs)) ==> (ic.Receipt.Logs[i] != nil && fresh(ic.Receipt.Logs[i])))
+//@   ensures[C14.parse_receipt_logs_position] ic != nil ==> (forall i int :: (0 <= i && i < len(ic.Receipt.Logs)) ==> (ic.Receipt.Logs[i].TxHash == ic.Receipt.TxHash && ic.Receipt.Logs[i].TxIndex == ic.Receipt.TransactionIndex && ic.Receipt.Logs[i].BlockNumber == bigval[ic.Receipt.BlockNumber]))
+//@   ensures[C14.parse_receipt_log_index] ic != nil ==> (forall j int :: attrFirstAt(event.Attributes, evmtypes.AttributeKeyReceiptStartLogIndex, j) ==> (forall i int :: (0 <= i && i < len(ic.Receipt.Logs)) ==> ic.Receipt.Logs[i].Index == wrapAdd64(uintTextVal(event.Attributes[j].Value, 10), i)))
+//@   panics[C14.parse_receipt_never_panics] never
+//@ loop 1
+//@   modifies fieldof(type(ethtypes.Log), BlockNumber), fieldof(type(ethtypes.Log), TxHash), fieldof(type(ethtypes.Log), TxIndex)
+//@   invariant[C14.parse_receipt_loop1_bounds] -1 <= rangeindex && rangeindex < len(receipt.Logs)
+//@   invariant[C14.parse_receipt_loop1_done] forall i int :: (0 <= i && i <= rangeindex) ==> (receipt.Logs[i].TxHash == receipt.TxHash && receipt.Logs[i].TxIndex == receipt.TransactionIndex && receipt.Logs[i].BlockNumber == blockNumber)
+//@   invariant[C14.parse_receipt_loop1_old_logs] forall l *ethtypes.Log :: !fresh(l) ==> (l.BlockNumber == old(l.BlockNumber) && l.TxHash == old(l.TxHash) && l.TxIndex == old(l.TxIndex))
+//@ loop 2
+//@   modifies fieldof(type(ethtypes.Log), Index)
+//@   invariant[C14.parse_receipt_loop2_bounds] -1 <= rangeindex && rangeindex < len(receipt.Logs)
+//@   invariant[C14.parse_receipt_loop2_done] forall i int :: (0 <= i && i <= rangeindex) ==> receipt.Logs[i].Index == wrapAdd64(startLogIndex, i)
+//@   invariant[C14.parse_receipt_loop2_old_logs] forall l *ethtypes.Log :: !fresh(l) ==> l.Index == old(l.Index)
+
+// TxReceiptFromEvent: (nil, nil) when the list has no tx_receipt event; otherwise the outcome of parsing the FIRST such
+// event (verified: gas used, tx index, tx hash and the consensus fields come from that event's attributes; the receipt
+// and its logs are new objects). TRUSTED on top (trusted ensures): the outcome is a function of the event list — the
+// evRc* names, keyed by the slice value; the events of a fetched response are never written by this package —, and the
+// log slice of a decoded receipt starts at offset 0 of its backing array (rlp decoding appends to a nil slice).
+//@ ghost macro evFirstReceiptAt(events []abci.Event, j int) bool = 0 <= j && j < len(events) && events[j].Type == evmtypes.EventTypeTxReceipt && (forall i int :: (0 <= i && i < j) ==> events[i].Type != evmtypes.EventTypeTxReceipt)
+//@ func TxReceiptFromEvent(events []abci.Event) (ic *InCompletedEthReceipt, err error)
+//@   modifies nothing
+//@   ensures[C14.receipt_from_event_none] (forall j int :: (0 <= j && j < len(events)) ==> events[j].Type != evmtypes.EventTypeTxReceipt) ==> (ic == nil && err == nil)
+//@   ensures[C14.receipt_from_event_some] (ic == nil && err == nil) ==> (forall j int :: (0 <= j && j < len(events)) ==> events[j].Type != evmtypes.EventTypeTxReceipt)
+//@   ensures[C14.receipt_from_event_shape] (err != nil ==> ic == nil) && (ic != nil ==> (fresh(ic) && ic.Receipt != nil && fresh(ic.Receipt) && ic.EffectiveGasPrice != nil && ic.Receipt.BlockNumber != nil && (exists j int :: 0 <= j && j < len(events) && events[j].Type == evmtypes.EventTypeTxReceipt)))
+//@   ensures[C14.receipt_from_event_gas_used] ic != nil ==> (forall j int, a int :: (evFirstReceiptAt(events, j) && attrFirstAt(events[j].Attributes, evmtypes.AttributeKeyReceiptGasUsed, a)) ==> ic.Receipt.GasUsed == uintTextVal(events[j].Attributes[a].Value, 10))
+//@   ensures[C14.receipt_from_event_tx_index] ic != nil ==> (forall j int, a int :: (evFirstReceiptAt(events, j) && attrFirstAt(events[j].Attributes, evmtypes.AttributeKeyReceiptTxIndex, a)) ==> ic.Receipt.TransactionIndex == uintTextVal(events[j].Attributes[a].Value, 10))
+//@   ensures[C14.receipt_from_event_tx_hash] ic != nil ==> (forall j int, a int :: (evFirstReceiptAt(events, j) && attrFirstAt(events[j].Attributes, evmtypes.AttributeKeyReceiptEvmTxHash, a)) ==> ic.Receipt.TxHash == common.HexToHash(events[j].Attributes[a].Value))
+//@   ensures[C14.receipt_from_event_consensus_fields] ic != nil ==> (forall j int, a int :: (evFirstReceiptAt(events, j) && attrFirstAt(events[j].Attributes, evmtypes.AttributeKeyReceiptMarshalled, a)) ==> hex0xDec(events[j].Attributes[a].Value) == rlpReceipt(ic.Receipt.Type, ic.Receipt.Status, ic.Receipt.CumulativeGasUsed, ic.Receipt.Bloom, base(ic.Receipt.Logs), off(ic.Receipt.Logs), len(ic.Receipt.Logs)))
+//@   ensures[C14.receipt_from_event_logs_fresh] ic != nil ==> (forall i int :: (0 <= i && i < len(ic.Receipt.Logs)) ==> (ic.Receipt.Logs[i] != nil && fresh(ic.Receipt.Logs[i])))
+//@   trusted ensures (err != nil) == evRcErr(base(events), off(events), len(events))
+//@   trusted ensures (ic != nil) == evRcHas(base(events), off(events), len(events))
+//@   trusted ensures ic != nil ==> bigval[ic.Receipt.BlockNumber] == evRcBlockNumber(base(events), off(events), len(events))
+//@   trusted ensures ic != nil ==> (ic.Receipt.GasUsed == evRcGasUsed(base(events), off(events), len(events)) && ic.Receipt.CumulativeGasUsed == evRcCumGas(base(events), off(events), len(events)) && ic.Receipt.Status == evRcStatus(base(events), off(events), len(events)) && ic.Receipt.Type == evRcType(base(events), off(events), len(events)) && ic.Receipt.TransactionIndex == evRcTxIndex(base(events), off(events), len(events)) && ic.Receipt.TxHash == evRcTxHash(base(events), off(events), len(events)) && ic.Receipt.ContractAddress == evRcContract(base(events), off(events), len(events)) && len(ic.Receipt.Logs) == evRcNLogs(base(events), off(events), len(events)))
+//@   trusted ensures ic != nil ==> off(ic.Receipt.Logs) == 0
+//@   panics[C14.receipt_from_event_never_panics] never
+//@ loop 1
+//@   invariant[C14.receipt_from_event_loop_bounds] -1 <= rangeindex && rangeindex < len(events)
+//@   invariant[C14.receipt_from_event_loop_none_yet] forall i int :: (0 <= i && i <= rangeindex) ==> events[i].Type != evmtypes.EventTypeTxReceipt
 
 // Fill: the block hash goes into the receipt and into every log; nothing else is written.
 //@ func (r *InCompletedEthReceipt) Fill(blockHash common.Hash)
